@@ -7,7 +7,10 @@
    (CacheFactory / CacheSet) and sqlobject/sqlite/sqliteconnection.py.
    Definitions only.
 
-   Fixture: one eager class with two nullable Int columns a, b.  The parent
+   Fixture: one class with two nullable Int columns a, b; two options of the class are part of the
+   configuration: lazyUpdate (assignments are queued on the instance until syncUpdate()/sync()) and a UNIQUE
+   constraint on column b (a statement that would make two rows carry the same non-NULL b is refused:
+   DuplicateEntryError; nothing is written, but the statement was sent).  The parent
    connection and the transaction have each their own CacheSet and therefore
    their own instances of a row: the model keeps one heap and one cache per
    side.
@@ -30,6 +33,7 @@ Open Scope Z_scope.
 Inductive side := Par | Txn.
 Definition side_eqb (a b : side) : bool :=
   match a, b with Par, Par | Txn, Txn => true | _, _ => false end.
+Definition other (sd : side) : side := match sd with Par => Txn | Txn => Par end.
 
 Definition val := option Z.                     (* None = NULL *)
 Definition val_eqb (a b : val) : bool :=
@@ -72,13 +76,26 @@ Definition tbl_update (id : Z) (c : nat) (v : val) (t : table) : table :=
 Definition tbl_delete (id : Z) (t : table) : table :=
   {| t_rows := assoc_remove id (t_rows t); t_next := t_next t |}.
 
+(* a UNIQUE constraint on column `col`: would value v collide with a row other than `skip`?  (NULLs never collide) *)
+Definition clash (col : nat) (t : table) (skip : option Z) (v : val) : bool :=
+  match v with
+  | None => false
+  | Some _ =>
+      existsb (fun e => negb (match skip with Some id => fst e =? id | None => false end) && val_eqb (nth col (snd e) None) v)
+              (t_rows t)
+  end.
+(* an UPDATE of row id: a row that is not there matches nothing and collides with nothing *)
+Definition upd_clash (col : nat) (t : table) (id : Z) (v : val) : bool :=
+  match tbl_lookup t id with Some _ => clash col t (Some id) v | None => false end.
+
 (* ------------------------------------------------------------------ exceptions, statements *)
 Inductive exc :=
 | ENotFound          (* SQLObjectNotFound *)
 | EOperational       (* database is locked *)
 | EAssertion         (* assertActive / begin on a running transaction *)
 | EAttribute         (* ConnWrapper method access on a Python without inspect.getargspec *)
-| EBadHandle.        (* harness: the slot is empty *)
+| EBadHandle         (* harness: the slot is empty *)
+| EDuplicate.        (* DuplicateEntryError: the UNIQUE column refuses the statement *)
 
 Inductive stmt :=
 | SSelectOne (sd : side) (id : Z)
@@ -86,6 +103,7 @@ Inductive stmt :=
 | SCount (sd : side)
 | SInsert (sd : side)
 | SUpdate (sd : side) (id : Z) (c : nat)
+| SUpdateCols (sd : side) (id : Z) (cs : list nat)     (* one UPDATE setting several columns (syncUpdate) *)
 | SDelete (sd : side) (id : Z).
 
 (* ------------------------------------------------------------------ state *)
@@ -93,7 +111,9 @@ Record inst := {
   i_id : Z;
   i_vals : list (option val);        (* the _SO_val_<col> attributes; None = attribute absent *)
   i_expired : bool;                  (* sqlmeta.expired *)
-  i_obsolete : bool                  (* sqlmeta._obsolete (destroySelf) *)
+  i_obsolete : bool;                 (* sqlmeta._obsolete (destroySelf) *)
+  i_pending : list (option val)      (* _SO_createValues of a lazyUpdate instance, by column: Some v = an assignment queued and
+                                        not written yet; sqlmeta.dirty = some column is queued *)
 }.
 
 Record cachef := {
@@ -109,7 +129,9 @@ Record conn := { heap : list inst; cache : cachef }.
 Definition empty_conn : conn := {| heap := []; cache := empty_cache |}.
 
 (* wrapOk: ConnWrapper can wrap class methods (inspect.getargspec exists in the running Python) *)
-Record config := { doCache : bool; cullFreq : Z; cullFrac : Z; wrapOk : bool }.
+Record config := { doCache : bool; cullFreq : Z; cullFrac : Z; wrapOk : bool;
+                   lazy : bool;       (* sqlmeta.lazyUpdate of the class *)
+                   uniq : bool }.     (* column b carries a UNIQUE constraint *)
 
 Record st := {
   par : conn;                        (* parent connection *)
@@ -163,16 +185,43 @@ Definition modify (f : st -> st) : M unit := fun s => (Ret tt, f s).
 
 (* ------------------------------------------------------------------ instances *)
 Definition blank_inst (id : Z) : inst :=
-  {| i_id := id; i_vals := [None; None]; i_expired := false; i_obsolete := false |}.
+  {| i_id := id; i_vals := [None; None]; i_expired := false; i_obsolete := false; i_pending := [None; None] |}.
 Definition get_inst (s : st) (sd : side) (o : nat) : inst := nth o (heap (cn s sd)) (blank_inst 0).
 Definition upd_inst (sd : side) (o : nat) (f : inst -> inst) : M unit :=
   modify (fun s => with_heap s sd (set_nth o (f (get_inst s sd o)) (heap (cn s sd)))).
 Definition new_inst (sd : side) (i : inst) : M nat :=
   fun s => (Ret (length (heap (cn s sd))), with_heap s sd (heap (cn s sd) ++ [i])).
 
-Definition i_with_vals (i : inst) v := {| i_id := i_id i; i_vals := v; i_expired := i_expired i; i_obsolete := i_obsolete i |}.
-Definition i_with_expired (i : inst) v := {| i_id := i_id i; i_vals := i_vals i; i_expired := v; i_obsolete := i_obsolete i |}.
-Definition i_with_obsolete (i : inst) v := {| i_id := i_id i; i_vals := i_vals i; i_expired := i_expired i; i_obsolete := v |}.
+Definition i_with_vals (i : inst) v := {| i_id := i_id i; i_vals := v; i_expired := i_expired i; i_obsolete := i_obsolete i; i_pending := i_pending i |}.
+Definition i_with_expired (i : inst) v := {| i_id := i_id i; i_vals := i_vals i; i_expired := v; i_obsolete := i_obsolete i; i_pending := i_pending i |}.
+Definition i_with_obsolete (i : inst) v := {| i_id := i_id i; i_vals := i_vals i; i_expired := i_expired i; i_obsolete := v; i_pending := i_pending i |}.
+Definition i_with_pending (i : inst) v := {| i_id := i_id i; i_vals := i_vals i; i_expired := i_expired i; i_obsolete := i_obsolete i; i_pending := v |}.
+
+(* the queued assignments of a lazyUpdate instance *)
+Definition is_some {X} (x : option X) : bool := match x with Some _ => true | None => false end.
+Definition dirty (i : inst) : bool := existsb is_some (i_pending i).
+Definition no_queue (p : list (option val)) : list (option val) := map (fun _ => None) p.
+Fixpoint queued_from (c : nat) (p : list (option val)) : list (nat * val) :=
+  match p with
+  | [] => []
+  | Some v :: r => (c, v) :: queued_from (S c) r
+  | None :: r => queued_from (S c) r
+  end.
+Definition queued (i : inst) : list (nat * val) := queued_from 0 (i_pending i).   (* by creation order of the columns *)
+(* a row as the instance shows it after a reload: queued values stay on top *)
+Fixpoint overlay (p : list (option val)) (r : row) : row :=
+  match p, r with
+  | Some v :: ps, _ :: rs => v :: overlay ps rs
+  | None :: ps, x :: rs => x :: overlay ps rs
+  | _, _ => r
+  end.
+(* the attributes that speak about the database: those of the columns with no assignment queued *)
+Fixpoint mask (vals : list (option val)) (p : list (option val)) : list (option val) :=
+  match vals, p with
+  | v :: vs, Some _ :: ps => None :: mask vs ps
+  | v :: vs, None :: ps => v :: mask vs ps
+  | _, _ => vals
+  end.
 
 (* ------------------------------------------------------------------ liveness (CPython reference counting) *)
 Definition slot_refs (s : st) (sd : side) : list nat :=
@@ -192,32 +241,62 @@ Definition stmt_read (sd : side) (q : stmt) : M table :=
   fun s => if dead s sd then (Raise EAssertion, s)
            else (Ret (view s sd), with_log s (q :: log s)).
 
-(* a writing statement *)
-Definition stmt_write {A} (sd : side) (q : stmt) (f : table -> A * table) : M A :=
+(* a writing statement.  `refused t`: the UNIQUE constraint refuses it against table t -- it was sent and has taken the
+   write lock (on the transaction's connection the transaction is open from here on, with the view it had), nothing is
+   written, DuplicateEntryError *)
+Definition stmt_write {A} (sd : side) (q : stmt) (refused : table -> bool) (f : table -> A * table) : M A :=
   fun s =>
     match sd with
     | Txn =>
         if tobs s then (Raise EAssertion, s)
+        else if refused (view s Txn) then (Raise EDuplicate, with_pending (with_log s (q :: log s)) (Some (view s Txn)))
         else let '(a, t) := f (view s Txn) in
              (Ret a, with_pending (with_log s (q :: log s)) (Some t))
     | Par =>
         match pending s with
         | Some _ => (Raise EOperational, with_log s (q :: log s))      (* the transaction holds the write lock *)
-        | None => let '(a, t) := f (committed s) in
-                  (Ret a, with_committed (with_log s (q :: log s)) t)
+        | None => if refused (committed s) then (Raise EDuplicate, with_log s (q :: log s))
+                  else let '(a, t) := f (committed s) in
+                       (Ret a, with_committed (with_log s (q :: log s)) t)
         end
     end.
 
 Definition db_select_one (sd : side) (id : Z) : M (option row) :=
   t <- stmt_read sd (SSelectOne sd id) ;; ret (tbl_lookup t id).
-Definition db_insert (sd : side) (r : row) : M Z := stmt_write sd (SInsert sd) (tbl_insert r).
-Definition db_update (sd : side) (id : Z) (c : nat) (v : val) : M unit :=
-  stmt_write sd (SUpdate sd id c) (fun t => (tt, tbl_update id c v t)).
 Definition db_delete (sd : side) (id : Z) : M unit :=
-  stmt_write sd (SDelete sd id) (fun t => (tt, tbl_delete id t)).
+  stmt_write sd (SDelete sd id) (fun _ => false) (fun t => (tt, tbl_delete id t)).
+
+Definition uniq_col : nat := 1.            (* column b *)
+Fixpoint assoc_nat {X} (c : nat) (l : list (nat * X)) : option X :=
+  match l with [] => None | (k, x) :: r => if Nat.eqb k c then Some x else assoc_nat c r end.
+(* one UPDATE setting every queued column: the row gets the queued values on top *)
+Definition tbl_update_cols (id : Z) (p : list (option val)) (t : table) : table :=
+  match assoc id (t_rows t) with
+  | None => t
+  | Some r => {| t_rows := assoc_set id (overlay p r) (t_rows t); t_next := t_next t |}
+  end.
+(* every queued column exists in the row *)
+Fixpoint fitsb (p : list (option val)) (r : row) : bool :=
+  match p, r with
+  | [], _ => true
+  | Some _ :: _, [] => false
+  | None :: ps, [] => fitsb ps []
+  | _ :: ps, _ :: rs => fitsb ps rs
+  end.
 
 Section WithConfig.
 Variable cfg : config.
+
+Definition db_insert (sd : side) (r : row) : M Z :=
+  stmt_write sd (SInsert sd) (fun t => uniq cfg && clash uniq_col t None (nth uniq_col r None)) (tbl_insert r).
+Definition db_update (sd : side) (id : Z) (c : nat) (v : val) : M unit :=
+  stmt_write sd (SUpdate sd id c) (fun t => uniq cfg && Nat.eqb c uniq_col && upd_clash uniq_col t id v)
+             (fun t => (tt, tbl_update id c v t)).
+(* syncUpdate: ONE UPDATE statement with every queued column *)
+Definition db_update_cols (sd : side) (id : Z) (p : list (option val)) : M unit :=
+  stmt_write sd (match queued_from 0 p with [(c, _)] => SUpdate sd id c | l => SUpdateCols sd id (map fst l) end)
+             (fun t => uniq cfg && match nth uniq_col p None with Some v => upd_clash uniq_col t id v | None => false end)
+             (fun t => (tt, tbl_update_cols id p t)).
 
 (* ------------------------------------------------------------------ CacheFactory / CacheSet of one side *)
 Definition set_cch (sd : side) (c : cachef) : M unit := modify (fun s => with_cch s sd c).
@@ -338,7 +417,10 @@ Definition so_get (sd : side) (id : Z) (sel : option row) (roots : list nat) : M
   match hit with
   | Some o =>
       match sel with
-      | Some r => select_init sd o r ;;; upd_inst sd o (fun i => i_with_expired i false) ;;; ret o
+      | Some r =>
+          i <- gets (fun s => get_inst s sd o) ;;
+          if dirty i then ret o               (* a row fetched by a select does not overwrite queued assignments *)
+          else select_init sd o r ;;; upd_inst sd o (fun i => i_with_expired i false) ;;; ret o
       | None => ret o
       end
   | None =>
@@ -356,6 +438,9 @@ Definition so_get (sd : side) (id : Z) (sel : option row) (roots : list nat) : M
 
 Definition set_val (c : nat) (v : val) (i : inst) : inst := i_with_vals i (set_nth c (Some v) (i_vals i)).
 
+(* the row as an instance shows it after a reload: the queued assignments of a lazyUpdate instance stay on top *)
+Definition reloaded (i : inst) (r : row) : row := if lazy cfg && dirty i then overlay (i_pending i) r else r.
+
 (* attribute read (_SO_loadValue; the class caches values) *)
 Definition so_read (sd : side) (o : nat) (c : nat) : M val :=
   i <- gets (fun s => get_inst s sd o) ;;
@@ -366,32 +451,48 @@ Definition so_read (sd : side) (o : nat) (c : nat) : M val :=
       r <- db_select_one sd (i_id i) ;;
       match r with
       | None => raise ENotFound
-      | Some r => select_init sd o r ;;; ret (nth c r None)
+      | Some r =>
+          (* unwritten assignments stay visible after the reload *)
+          let r' := reloaded i r in
+          select_init sd o r' ;;; ret (nth c r' None)
       end
   end.
 
-(* attribute assignment (_SO_setValue, eager): UPDATE, then cache the value -- unless the instance is
-   flagged expired (it reloads the whole row on the next read) *)
+(* attribute assignment (_SO_setValue).  Eager: UPDATE, then cache the value -- unless the instance is
+   flagged expired (it reloads the whole row on the next read).  lazyUpdate: nothing is sent; the value is
+   queued and cached (also on an expired instance) *)
 Definition so_set (sd : side) (o : nat) (c : nat) (v : val) : M unit :=
   i <- gets (fun s => get_inst s sd o) ;;
-  db_update sd (i_id i) c v ;;;
-  if i_expired i then ret tt else upd_inst sd o (set_val c v).
+  if lazy cfg then upd_inst sd o (fun i => i_with_pending (set_val c v i) (set_nth c (Some v) (i_pending i)))
+  else
+    db_update sd (i_id i) c v ;;;
+    if i_expired i then ret tt else upd_inst sd o (set_val c v).
 
-(* sync *)
-Definition so_sync (sd : side) (o : nat) : M unit :=
+(* syncUpdate: nothing queued, nothing done (no statement, not even the check that the transaction is active);
+   else the one UPDATE, then the queue is emptied (it stays when the statement raised) *)
+Definition so_sync_update (sd : side) (o : nat) : M unit :=
+  i <- gets (fun s => get_inst s sd o) ;;
+  if dirty i then
+    db_update_cols sd (i_id i) (i_pending i) ;;; upd_inst sd o (fun i => i_with_pending i (no_queue (i_pending i)))
+  else ret tt.
+
+(* sync: write what is queued (lazyUpdate), then reload *)
+Definition so_reload (sd : side) (o : nat) : M unit :=
   i <- gets (fun s => get_inst s sd o) ;;
   r <- db_select_one sd (i_id i) ;;
   match r with
   | None => raise ENotFound
   | Some r => select_init sd o r ;;; upd_inst sd o (fun i => i_with_expired i false)
   end.
+Definition so_sync (sd : side) (o : nat) : M unit :=
+  (if lazy cfg then so_sync_update sd o else ret tt) ;;; so_reload sd o.
 
-(* expire: always drop whatever column attributes are there (a missing one is no error); flag the instance and purge
+(* expire: always drop whatever column attributes are there (a missing one is no error) and whatever is queued; flag the instance and purge
    the row's cache entry only if it was not flagged already (an instance that is expired already left the cache then;
    the row's entry may be another instance's by now) *)
 Definition so_expire (sd : side) (o : nat) : M unit :=
   i <- gets (fun s => get_inst s sd o) ;;
-  upd_inst sd o (fun i => i_with_vals i (map (fun _ => None) (i_vals i))) ;;;
+  upd_inst sd o (fun i => i_with_pending (i_with_vals i (map (fun _ => None) (i_vals i))) (no_queue (i_pending i))) ;;;
   if i_expired i then ret tt
   else
     upd_inst sd o (fun i => i_with_expired i true) ;;;
@@ -411,7 +512,7 @@ Definition so_destroy (sd : side) (o : nat) : M unit :=
 (* __init__ / _create / _SO_finishCreate with both columns given *)
 Definition so_create (sd : side) (a b : val) : M nat :=
   id <- db_insert sd [a; b] ;;
-  o <- new_inst sd {| i_id := id; i_vals := [Some a; Some b]; i_expired := false; i_obsolete := false |} ;;
+  o <- new_inst sd {| i_id := id; i_vals := [Some a; Some b]; i_expired := false; i_obsolete := false; i_pending := [None; None] |} ;;
   cache_created sd id o ;;;
   r <- db_select_one sd id ;;
   match r with
@@ -486,6 +587,7 @@ Inductive op :=
 | ODestroy (h : nat)
 | OExpire (h : nat)
 | OSync (h : nat)
+| OSyncUpdate (h : nat)
 | ODrop (h : nat)
 | OCull (sd : side)
 | OCommit (close : bool)
@@ -553,6 +655,7 @@ Definition run_op (o : op) : M outv :=
   | ODestroy h => x <- handle h ;; so_destroy (fst x) (snd x) ;;; ret RNone
   | OExpire h => x <- handle h ;; so_expire (fst x) (snd x) ;;; ret RNone
   | OSync h => x <- handle h ;; so_sync (fst x) (snd x) ;;; ret RNone
+  | OSyncUpdate h => x <- handle h ;; so_sync_update (fst x) (snd x) ;;; ret RNone
   | ODrop h => modify (fun s => with_slots s (set_nth h None (slots s))) ;;; ret RNone
   | OCull sd =>
       c <- gets (fun s => cch s sd) ;;
@@ -573,7 +676,7 @@ Fixpoint run (s : st) (ops : list op) : st :=
 Definition op_side (s : st) (o : op) : option side :=
   match o with
   | OCreate sd _ _ _ | OGet sd _ _ | OSelect sd _ _ | OCount sd | OCull sd => Some sd
-  | ORead h _ | OSet h _ _ | ODestroy h | OExpire h | OSync h =>
+  | ORead h _ | OSet h _ _ | ODestroy h | OExpire h | OSync h | OSyncUpdate h =>
       match nth h (slots s) None with Some x => Some (fst x) | None => None end
   | ODrop h => match nth h (slots s) None with Some x => Some (fst x) | None => None end
   | OCommit _ | ORollback | OBegin => Some Txn
@@ -590,9 +693,9 @@ Definition side_slots (s : st) (sd : side) : list (option nat) :=
 (* an instance the program can still reach on side sd *)
 Definition reachable_obj (s : st) (sd : side) (o : nat) : bool := alive s sd [] o.
 
-(* every cached attribute of instance i agrees with table t (and none is cached when the row is gone) *)
-Definition shows (t : table) (i : inst) : bool :=
-  match tbl_lookup t (i_id i) with
+(* every cached attribute agrees with table t (and none is cached when the row is gone) *)
+Definition shows_vals (t : table) (id : Z) (vals : list (option val)) : bool :=
+  match tbl_lookup t id with
   | Some r =>
       (fix go (vals : list (option val)) (r : row) : bool :=
          match vals, r with
@@ -601,9 +704,12 @@ Definition shows (t : table) (i : inst) : bool :=
          | Some v :: vs, x :: rs => val_eqb v x && go vs rs
          | Some _ :: _, [] => false
          | None :: vs, [] => go vs []
-         end) (i_vals i) r
-  | None => forallb (fun v => match v with None => true | Some _ => false end) (i_vals i)
+         end) vals r
+  | None => forallb (fun v => match v with None => true | Some _ => false end) vals
   end.
+(* ... of instance i: every cached attribute of a column with NO assignment queued (a queued value is what the program
+   assigned and has not written yet -- it says nothing about the database) *)
+Definition shows (t : table) (i : inst) : bool := shows_vals t (i_id i) (mask (i_vals i) (i_pending i)).
 
 Fixpoint seq_nat (n : nat) : list nat := match n with O => [] | S k => seq_nat k ++ [k] end.
 
@@ -664,14 +770,33 @@ Definition others_blankb (s : st) (o : nat) : bool :=
 (* what a step of a history must satisfy for the parent side to stay fresh: commits reach what they must;
    an assignment through a parent-side instance goes to an existing row and column and to the only cached
    copy; so does destroySelf *)
+Definition is_sync_update (o : op) : bool := match o with OSyncUpdate _ => true | _ => false end.
 Definition step_ok (s : st) (o : op) : bool :=
   match o with
   | OCommit _ => tobs s || commit_reaches s
   | OSet h c _ =>
+      match nth h (slots s) None with
+      | Some (Par, x) =>
+          if lazy cfg then Nat.ltb c (length (i_pending (get_inst s Par x)))     (* a queued assignment: column c exists *)
+          else
+            match pending s with
+            | None =>
+                others_blankb s x &&
+                match tbl_lookup (committed s) (i_id (get_inst s Par x)) with Some r => Nat.ltb c (length r) | None => false end
+            | Some _ => true
+            end
+      | _ => true
+      end
+  | OSyncUpdate h | OSync h =>
+      (* writing the queue of a parent-side instance: as an assignment, for every queued column *)
       match nth h (slots s) None, pending s with
       | Some (Par, x), None =>
-          others_blankb s x &&
-          match tbl_lookup (committed s) (i_id (get_inst s Par x)) with Some r => Nat.ltb c (length r) | None => false end
+          negb (lazy cfg || is_sync_update o) || negb (dirty (get_inst s Par x)) ||
+          (others_blankb s x &&
+           match tbl_lookup (committed s) (i_id (get_inst s Par x)) with
+           | Some r => fitsb (i_pending (get_inst s Par x)) r
+           | None => false
+           end)
       | _, _ => true
       end
   | ODestroy h =>
@@ -697,7 +822,9 @@ Definition needs_db (s : st) (o : op) : bool :=
                  | Some (sd, x) => match nth c (i_vals (get_inst s sd x)) None with Some _ => false | None => true end
                  | None => false
                  end
-  | OSet h _ _ | ODestroy h | OSync h => match nth h (slots s) None with Some _ => true | None => false end
+  | OSet h _ _ => if lazy cfg then false else match nth h (slots s) None with Some _ => true | None => false end
+  | ODestroy h | OSync h => match nth h (slots s) None with Some _ => true | None => false end
+  | OSyncUpdate h => match nth h (slots s) None with Some (sd, x) => dirty (get_inst s sd x) | None => false end
   | _ => false
   end.
 
